@@ -1,4 +1,5 @@
 import FinProtoc.Props.C09
 #print axioms FinProtoc.Props.format_error_identity
 #print axioms FinProtoc.Props.format_ok_is_parsed
+#print axioms FinProtoc.Props.accepted_is_whole
 #print axioms FinProtoc.Props.keylist_short
